@@ -214,7 +214,7 @@ impl From<TextOutputOptions> for TextPrinter {
         let mut escape_sequandes = HashMap::with_capacity(options.escape_sequance.capacity());
         for v in &options.escape_sequance {
             if let Some(c) = v.chars().next() {
-                escape_sequandes.insert(c, v[1..].to_string());
+                escape_sequandes.insert(c, v[c.len_utf8()..].to_string());
             }
         }
         TextPrinter {
